@@ -293,7 +293,7 @@ Example iso_poll_remove_example :
 Proof. vm_compute. auto. Qed.
 
 (* capacity rejection happens (poll, hints_max_fd = 1) and changes nothing *)
-Definition cap_script : script := mkScr 1 [(1, KPipe); (2, KPipe)] [[AAdd 1; AWrite 1 3; AAdd 2]] [].
+Definition cap_script : script := mkScr 1 [(1, KPipe); (2, KPipe)] [[AAdd 1; AWrite 1 3; AAdd 2]] [] false [].
 Example iso_reject_example :
   let s := start BPoll cap_script in
   clist s = [1] /\ map fst (parr s) = [0; 1] /\ cq (cx s 1) = 3 /\ hd EWake (tr s) = EAct (AAdd 2) 2 /\
@@ -304,7 +304,7 @@ Proof. vm_compute. auto. Qed.
    n = 2, the walk stops before slot 1 although context 1 was reported readable; slot 1 is untouched
    and the next poll() reports it again *)
 Definition skip_script : script :=
-  mkScr 4 [(1, KPipe); (2, KPipe)] [[AAdd 1; AAdd 2; AWrite 1 3; AWrite 2 4; APclose 2]] [].
+  mkScr 4 [(1, KPipe); (2, KPipe)] [[AAdd 1; AAdd 2; AWrite 1 3; AWrite 2 4; APclose 2]] [] false [].
 Example poll_double_decrement_skips_one_pass :
   let s := start BPoll skip_script in
   let s1 := iter (kern_o s) s in
